@@ -1,0 +1,13 @@
+//go:build verif
+
+package http1
+
+// VerifYield, when set, is called at the pool's lock boundaries so that a seeded scheduler can
+// perturb the interleaving of acquire / release / close / deliver / cancel.
+var VerifYield func(site string)
+
+func verifYield(site string) {
+	if f := VerifYield; f != nil {
+		f(site)
+	}
+}
